@@ -264,6 +264,10 @@ def run(ctx, R, tier):
     # a setter's value is the one in use from the next callback on: nothing runs on a cached copy of a parameter's value
     from .c06 import param_cache
     param_cache(F, R, rule='B.C07.param-cache')
+    # every parameter a handle can set has a reader of its own handed to it (a channel shared between several resources is
+    # last-write-wins across them: a command to one erases a pending command to another)
+    from .c06 import cover as parameter_cover
+    parameter_cover(F, R)
     # a life-cycle command takes effect as the documented state machine says, in every state (the C03 rules)
     from . import c03
     c03.run(ctx, R, tier)
